@@ -26,13 +26,25 @@ def header_bytes(offset):
     return bytes((0xA5 + 3 * k) % 251 + 1 for k in range(offset))
 
 
-def write_flat(dirpath, arr, parts, offset=0, ext='.dat', stem='raw'):
+def part_names(n, order='asc', stem='raw'):
+    """File stems for n parts.  The given order of the files is what defines the recording; only
+    'asc' coincides with the lexicographic order of the names ('desc' reverses it, 'num' is the
+    run_8, run_9, run_10 pattern)."""
+    if order == 'desc':
+        return ['%s%d' % (stem, n - 1 - k) for k in range(n)]
+    if order == 'num':
+        return ['%s_%d' % (stem, 8 + k) for k in range(n)]
+    return ['%s%d' % (stem, k) for k in range(n)]
+
+
+def write_flat(dirpath, arr, parts, offset=0, ext='.dat', stem='raw', order='asc'):
     """Write arr as len(parts) flat binary files with the given first-axis sizes."""
     assert sum(parts) == arr.shape[0]
     paths = []
     i = 0
+    names = part_names(len(parts), order, stem)
     for k, sz in enumerate(parts):
-        p = Path(dirpath) / ('%s%d%s' % (stem, k, ext))
+        p = Path(dirpath) / (names[k] + ext)
         with open(p, 'wb') as f:
             f.write(header_bytes(offset))
             f.write(np.ascontiguousarray(arr[i:i + sz]).tobytes())
